@@ -509,7 +509,9 @@ def spawned_task_tables(ctx, rid):
          "events": [r"^OwnedPermit::send\(wt_slot,<impl .*?UniRemote, H3>>>::upgrade\(\(%s as Ok\)\.0\)\)$" % UP], "not_events": [r"^OwnedPermit::send\(h3_slot"], "leaf": r"^return \(\)$"},
         {"name": "H3 stream->h3 queue (same stream)", "atoms": [r"^%s is Ok$" % UP, r"::kind\(&\(%s as Ok\)\.0\) isnot WebTransport$" % UP],
          "events": [r"^OwnedPermit::send\(h3_slot,Result::Ok\(\(%s as Ok\)\.0\)\)$" % UP], "not_events": [r"^OwnedPermit::send\(wt_slot"], "leaf": r"^return \(\)$"},
-        {"name": "H3 error->reported to worker", "atoms": [r"^\(%s as Err\)\.0 is H3$" % UP],
+        {"name": "unknown stream type->discarded, never a connection error", "atoms": [r"^\(\(%s as Err\)\.0 as H3\)\.0 is StreamCreation$" % UP],
+         "not_events": [r"OwnedPermit::send"], "leaf": r"^return \(\)$"},
+        {"name": "other H3 error->reported to worker", "atoms": [r"^\(\(%s as Err\)\.0 as H3\)\.0 isnot StreamCreation$" % UP],
          "events": [r"^OwnedPermit::send\(h3_slot,Result::Err\(DriverError::Proto\(\(\(%s as Err\)\.0 as H3\)\.0\)\)\)$" % UP], "leaf": r"^return \(\)$"},
         {"name": "IO error->stream dropped silently", "atoms": [r"^\(%s as Err\)\.0 is IO$" % UP], "not_events": [r"OwnedPermit::send"], "leaf": r"^return \(\)$"},
     ]
